@@ -1,0 +1,34 @@
+//go:build verif
+
+// Contracts for package token, used by /verif (gvc).  This file contains no
+// declarations; it is compiled only with the verif build tag.
+
+package token
+
+//@ -- Assumed contracts of the stateful-token store as seen by its callers (bodies verified under C16 when claimed).
+//@ func Get
+//@   trusted
+//@   why stateful.go: the token with that name and its version tag, or an error (then no token); reads the token file under tokens.mu
+//@   modifies nothing
+//@   ensures found: isnil(result2) ==> result0 != nil
+//@   ensures missing: !isnil(result2) ==> result0 == nil
+//@ func List
+//@   trusted
+//@   why stateful.go: the tokens of a group (no nil entries: they are the values of the tokens map) and the version tag; reads the token file under tokens.mu
+//@   modifies nothing
+//@   ensures entries: forall k int :: 0 <= k && k < len(result0) ==> result0[k] != nil
+//@ func Update
+//@   trusted
+//@   why stateful.go: conditional update of the token file under tokens.mu; returns the stored token
+//@   modifies nothing
+//@   ensures stored: isnil(result1) ==> result0 != nil
+//@ func Delete
+//@   trusted
+//@   why stateful.go: conditional deletion under tokens.mu
+//@   modifies nothing
+//@ func (*Stateful).Clone
+//@   trusted
+//@   why stateful.go: returns a copy
+//@   requires nonnil: token != nil
+//@   modifies nothing
+//@   ensures copy: result != nil && fresh(result)
